@@ -69,7 +69,7 @@ def json_doc(r, depth=0):
         if y < 0.7:
             return r.choice([0, -0, 1, -1, 2**31, 2**53, 2**63, 2**64, -2**63, 10**30, 10**100])
         if y < 0.85:
-            return r.choice([0.5, -0.5, 1e308, -1e308, 5e-324, 2.2250738585072014e-308, 1.7976931348623157e308, 0.1, 1e21, 1e-7,
+            return r.choice([1.0, 0.0, -0.0, 2.0, 0.5, -0.5, 1e308, -1e308, 5e-324, 2.2250738585072014e-308, 1.7976931348623157e308, 0.1, 1e21, 1e-7,
                              123456789.12345679])
         return r.choice([True, False, None])
     if x < 0.7:
